@@ -15,7 +15,7 @@ REAL = ['onl.sim.core.Environment (through TapEnvironment subclass)', 'onl.sim.e
 STUBS = ['process bodies are the harness interpreter body(); plain callbacks are harness closures']
 ASSUMPTIONS = ['occurrence class (urgent/normal) is derived from the event type, not from the priority passed',
                'TapEnvironment only observes schedule()/step() and prepends one probe callback']
-PROBES = ['observed_without_probes', 'long_run_2pow20_events', 'instants_ge3', 'urgent_and_normal_same_instant', 'until_coincides_normal', 'zero_chain_ge3',
+PROBES = ['float_delays_on_huge_integer_clock', 'observed_without_probes', 'long_run_2pow20_events', 'instants_ge3', 'urgent_and_normal_same_instant', 'until_coincides_normal', 'zero_chain_ge3',
           'neg_timeout', 'interrupt_issued', 'until_refused']
 
 
@@ -75,6 +75,12 @@ def gen(rng, tier):
         case['noprobe'] = True
     _maybe_long_run(rng, tier, case)
     pool = POOLS[prof.pool]
+    if rng.random() < 0.05 and not case.get('long_run'):
+        # an integer clock beyond 2**53 (nanoseconds since the epoch) on which the program uses float delays: the sums
+        # are rounded, but the clock must still never run backwards
+        case['t0'] = rng.choice([2 ** 53 + 1, 1700000000000000123, -(2 ** 53) - 1])
+        case['mixed_clock'] = True
+        pool = [1, 2, 3]
     plan = []
     t = case['t0']
     for _ in range(rng.choice([0, 0, 1, 2, 3])):
@@ -202,7 +208,10 @@ def timeout_body_check(log, viol, stats):
                 d = DELAYS.get(y[6])
                 if d is None:
                     continue
-                if y[2] + d != r[2]:
+                want = y[2] + d
+                if want < y[2] and not d < 0:
+                    want = y[2]       # rounded below the clock (huge integer clock, float delay): due now, not in the past
+                if want != r[2]:
                     viol.append(('C01.2', 'process %s yielded timeout(%r) at t=%r and was resumed at t=%r' %
                                  (r[4], d, y[2], r[2])))
                 if d == 0:
@@ -240,6 +249,8 @@ def run(case):
     timeout_body_check(env.log, viol, stats)
     if case.get('long_run'):
         stats['long_run_2pow20_events'] = 1
+    if case.get('mixed_clock'):
+        stats['float_delays_on_huge_integer_clock'] = 1
     res = {'viol': viol, 'digest': digest_of(env.log), 'nontrivial': bool(multi), 'stats': stats,
            'simtime': float(env.now) - float(case.get('t0', 0)), 'steps': steps,
            'interleaving': digest_of([tuple((c, k) for c, k, _ in v) for v in multi]) if multi else None}
